@@ -21,6 +21,11 @@ func runC06(c *Ctx) {
 	checkCrashLeftovers(c)
 	// reopening after a crash: the stale-lock report must not block the open (shared with C19)
 	checkNoSendBeforeHandover(c, "R19.9")
+	// a cache file torn by a crash is noticed and rebuilt; a bug is published in git before the cache lists it (shared with C11)
+	checkLoadAllOrRebuild(c, "R11.10")
+	checkIndexReopen(c)
+	c.Doc("R11.3", "RepoCacheBug.NewRaw / RepoCacheIdentity.finishIdentity commit the entity before it is registered in the cache")
+	checkCreationRegisters(c)
 	// the cache file follows every change of the excerpts (shared with C11)
 	c.Doc("R11.1", "per SubCache function: excerpts store ⇒ index write; delete ⇒ Index.Remove; reset ⇒ Index.Clear; and SubCache.write() on every path to a non-error exit")
 	checkExcerptIndexPairing(c)
@@ -505,4 +510,40 @@ func checkLockContentParsable(c *Ctx) {
 		}
 		c.Check(okW || trims, "R6.7", "RepoCache.lock:content-is-what-the-reader-parses", w.FnPos(lk), "the lock holds the pid only", "the lock file is written as "+shape+" but repoIsAvailable parses its bytes with strconv.Atoi without trimming: after a crash of the holder the stale lock cannot be parsed, every later open fails until the file is removed by hand")
 	}
+}
+
+
+// R6.9: a search index that cannot be opened is recreated. A crash between the creation of the index
+// directory and the first write of the index leaves a directory bleve refuses ("metadata missing"); the
+// cache is then rebuilt from git anyway (document count mismatch), so nothing is lost by starting over.
+func checkIndexReopen(c *Ctx) {
+	w := c.W
+	c.Doc("R6.9", "repository.openBleveIndex fails only when creating a fresh index fails: every error return is dominated by the makeIndex call (any failure of bleve.Open leads to re-creation)")
+	fn := w.Func("repository", "openBleveIndex")
+	if fn == nil {
+		c.Undecided("R6.9", "anchor:openBleveIndex", "repository", "not found")
+		return
+	}
+	c.seeFn(funcName(fn))
+	var mk ssa.Instruction
+	for _, cl := range Calls(fn) {
+		if cl.Name == "repository.bleveIndex.makeIndex" {
+			mk = cl.Instr
+		}
+	}
+	if mk == nil {
+		c.Check(false, "R6.9", "openBleveIndex:any-open-failure-recreates", w.FnPos(fn), "", "openBleveIndex never creates a fresh index")
+		return
+	}
+	bad := ""
+	for _, r := range Returns(fn) {
+		if returnKind(r) != RetError {
+			continue
+		}
+		c.Sites++
+		if !instrDominates(mk, r) {
+			bad = "the error return at " + w.InstrPos(r) + " is reachable without having tried to create a fresh index"
+		}
+	}
+	c.Check(bad == "", "R6.9", "openBleveIndex:any-open-failure-recreates", w.FnPos(fn), "every failure of bleve.Open leads to makeIndex", bad+": after a crash that left a half-created index directory the repository cannot be opened any more")
 }
